@@ -119,11 +119,28 @@ func TestC15(t *testing.T) {
 					case "static":
 						tr = vegeta.NewStaticTargeter(ts...)
 					}
+					// a panic inside the targeter would take the whole process down from a worker goroutine: caught here
+					var panicked string
+					inner := tr
+					tr = func(t *vegeta.Target) (err error) {
+						defer func() {
+							if x := recover(); x != nil {
+								panicked = fmt.Sprint(x)
+								err = fmt.Errorf("targeter panicked: %v", x)
+							}
+						}()
+						return inner(t)
+					}
 					rt := &recRT{}
 					atk := vegeta.NewAttacker(vegeta.Client(&http.Client{Transport: rt}), vegeta.Workers(workers), vegeta.MaxWorkers(workers))
 					for range atk.Attack(tr, nHits{uint64(hits)}, 0, "c15") {
 					}
 					ctx := map[string]any{"targeter": kind, "targets": k, "workers": workers, "hits": hits}
+					if panicked != "" {
+						ctx["panic"] = panicked
+						R.Violation("attacker:"+kind+":targeter-panics", ctx)
+						continue
+					}
 					bad := ""
 					perPath := map[string]int{}
 					seqs := map[string]int{}
